@@ -95,26 +95,38 @@ def _mutated_object(effect):
     return None
 
 
-def freeze_readers(env, effects, effect):
+def freeze_readers(env, effects, effect, rest=None):
     """a local bound to an expression that reads object O keeps the value O had when it was bound: before an effect that
-    changes O in place, such locals are materialised as positional symbols (`_pre0 = <value>` recorded as an effect), so
-    that `n = len(xs); xs.append(y); use(n)` and `xs.append(y); n = len(xs); use(n)` get different summaries"""
+    changes O in place, such locals — those still used afterwards (`rest`: the statements that follow) — are materialised as
+    positional symbols (`_pre0 = <value>` recorded as an effect), so that `n = len(xs); xs.append(y); use(n)` and
+    `xs.append(y); n = len(xs); use(n)` get different summaries.  Locals holding the same expression share one symbol, and
+    symbols are numbered in the order of their expressions' text, so neither the names nor the binding order of locals matter."""
     obj = _mutated_object(effect)
     if obj is None:
         return env, effects
-    new_env = None
+    live = None
+    if rest is not None:
+        live = {n.id for st in rest for n in ast.walk(st) if isinstance(n, ast.Name)}
+    cands = {}
     for name, val in env.items():
         if not isinstance(val, ast.AST) or isinstance(val, (ast.Name, ast.Constant)):
             continue
+        if live is not None and name not in live:
+            continue
         if any(isinstance(n, (ast.Attribute, ast.Subscript, ast.Name)) and unparse(n) == obj for n in ast.walk(val)):
-            k = sum(1 for e in effects if isinstance(e, ast.Assign) and isinstance(e.targets[0], ast.Name) and
-                    e.targets[0].id.startswith("_pre"))
-            sym = f"_pre{k}"
-            effects = effects + [ast.Assign(targets=[ast.Name(id=sym, ctx=ast.Store())], value=val, lineno=getattr(effect, "lineno", 0))]
-            if new_env is None:
-                new_env = dict(env)
+            cands.setdefault(unparse(val), (val, []))[1].append(name)
+    if not cands:
+        return env, effects
+    new_env = dict(env)
+    k = sum(1 for e in effects if isinstance(e, ast.Assign) and isinstance(e.targets[0], ast.Name) and e.targets[0].id.startswith("_pre"))
+    for text in sorted(cands):
+        val, names = cands[text]
+        sym = f"_pre{k}"
+        k += 1
+        effects = effects + [ast.Assign(targets=[ast.Name(id=sym, ctx=ast.Store())], value=val, lineno=getattr(effect, "lineno", 0))]
+        for name in names:
             new_env[name] = ast.Name(id=sym, ctx=ast.Load())
-    return (new_env if new_env is not None else env), effects
+    return new_env, effects
 
 
 def assigned_names(stmts):
@@ -464,8 +476,7 @@ def run_paths(stmts, env=None, max_paths=256, decide=None, inline=None, fold=Non
                 continue
             if isinstance(s, ast.Assign):
                 val = D(F(subst(s.value, env)), conds)
-                if isinstance(val, ast.IfExp) and not isinstance(s.value, ast.IfExp) and len(s.targets) == 1 and \
-                        isinstance(s.targets[0], ast.Name):
+                if isinstance(val, ast.IfExp) and len(s.targets) == 1 and isinstance(s.targets[0], ast.Name):
                     # the conditional came from expanding a helper with two return paths: follow them as paths
                     rest = stmts[i:]
                     t_ = s.targets[0]
@@ -508,11 +519,11 @@ def run_paths(stmts, env=None, max_paths=256, decide=None, inline=None, fold=Non
                                 env[e.id] = v
                             else:
                                 eff_ = ast.Assign(targets=[subst(e, env)], value=v, lineno=s.lineno)
-                                env, effects = freeze_readers(env, effects, eff_)
+                                env, effects = freeze_readers(env, effects, eff_, stmts[i:])
                                 effects = effects + [eff_]
                     else:
                         eff_ = ast.Assign(targets=[subst(t, env)], value=val, lineno=s.lineno)
-                        env, effects = freeze_readers(env, effects, eff_)
+                        env, effects = freeze_readers(env, effects, eff_, stmts[i:])
                         effects = effects + [eff_]
                 continue
             if isinstance(s, ast.AugAssign):
@@ -522,7 +533,7 @@ def run_paths(stmts, env=None, max_paths=256, decide=None, inline=None, fold=Non
                     env[s.target.id] = ast.BinOp(left=copy.deepcopy(cur), op=s.op, right=subst(s.value, env))
                 else:
                     eff_ = ast.AugAssign(target=subst(s.target, env), op=s.op, value=subst(s.value, env), lineno=s.lineno)
-                    env, effects = freeze_readers(env, effects, eff_)
+                    env, effects = freeze_readers(env, effects, eff_, stmts[i:])
                     effects = effects + [eff_]
                 continue
             if isinstance(s, ast.Expr):
@@ -545,7 +556,7 @@ def run_paths(stmts, env=None, max_paths=256, decide=None, inline=None, fold=Non
                     env[v.func.value.id] = ast.Dict(keys=keys, values=vals)
                     continue
                 eff_ = D(F(subst(s.value, env)), conds)
-                env, effects = freeze_readers(env, effects, eff_)
+                env, effects = freeze_readers(env, effects, eff_, stmts[i:])
                 effects = effects + [eff_]
                 continue
             if isinstance(s, ast.Return):
